@@ -76,6 +76,13 @@ Example C09_nonvacuous :
    merge_subtrees_root p IV 0 cva cvb) = Ok (b3_hash (a ++ b)).
 Proof. vm_compute. reflexivity. Qed.
 
+(* the functions of the modelled source are exactly the functions the model was written against
+   (gen/GenApi.v is regenerated from /repo on every run; see Model/ApiSurface.v) *)
+From V Require gen.GenApi Model.ApiSurface.
+Theorem C09_api_hazmat : GenApi.api_hazmat = ApiSurface.expected_hazmat.
+Proof. reflexivity. Qed.
+
+Print Assumptions C09_api_hazmat.
 Print Assumptions C09_left_subtree_len.
 Print Assumptions C09_left_len_is_largest_pow2_below.
 Print Assumptions C09_max_subtree_len.
